@@ -99,6 +99,14 @@ theorem no_panic (cfg : Cfg) (hcfg : cfg.benchmark = false ∨ cfg.lenFirst = tr
   intro b
   rcases hcfg with h | h <;> simp [scanPanics, h]
 
+/-- The code as it is NOW: `codeLenFirst` is read from mempool/src/batch_maker.rs by the translator on
+every run (Generated/Switches.lean).  No transaction sequence — empty transactions included — panics
+the batch maker, in either build configuration.  (If the source tests `tx[0]` before the length this
+theorem no longer type-checks and the check reports the failing input.) -/
+theorem no_panic_current_code (cfg : Cfg) (hcfg : cfg.lenFirst = codeLenFirst)
+    (s : State) (es : List Ev) : ∃ r, run cfg s es = .ok r :=
+  no_panic cfg (Or.inr (by rw [hcfg]; rfl)) s es
+
 /-- … and none in any build as long as no transaction is empty. -/
 theorem no_panic_without_empty_tx (cfg : Cfg) (es : List Ev)
     (hne : ∀ t, Ev.tx t ∈ es → t ≠ []) : ∃ r, run cfg init es = .ok r := by
